@@ -13,6 +13,7 @@ for dir in "$VERIF"/benign/*/; do
   [ -f "$dir/patch.diff" ] || continue
   id="$(basename "$dir")"
   match=0; for p in "${pats[@]}"; do case "$id" in $p) match=1;; esac; done; [ $match = 1 ] || continue
+  [ "$(jq -r '.retired // ""' "$dir/meta.json" 2>/dev/null)" = "" ] || { printf "%-40s %s\n" "$id" "retired"; continue; }
   base="$(jq -r '.base_commit // "HEAD"' "$dir/meta.json" 2>/dev/null)"; [ -n "$base" ] || base=HEAD
   rm -rf "$W/repo"; mkdir -p "$W/repo"; (cd /repo && git archive "$base") | tar -x -C "$W/repo"
   (cd "$W/repo" && patch -p1 -s < "$dir/patch.diff") || { echo "$id PATCH-DOES-NOT-APPLY"; bad=$((bad+1)); continue; }
